@@ -26,7 +26,7 @@ TIMEOUT = 1500
 
 HDR = {"avc": 2, "avcf": 2, "hevc": 3, "hevcf": 3}
 PT = {"avc": 96, "avcf": 96, "hevc": 98, "hevcf": 98, "aac": 97, "pcma": 8, "pcmu": 0, "opus": 101}
-HEVC_KNOWN = set(list(range(0, 10)) + list(range(16, 24)) + [32, 33, 34, 35, 39, 40])
+HEVC_KNOWN = set(range(48))   # every single NAL unit packet type of RFC 7798 (C07 fix b865944; was: the keys of hevc.NaluTypeMapping)
 
 
 # ------------------------------------------------------------------ reference (written from the RFCs)
@@ -329,7 +329,8 @@ def oracle_pack(f, out):
 
 
 def out_ms(ms, rate):
-    return ((ms * rate // 1000) % (1 << 32)) // (rate // 1000)
+    # milliseconds of an rtp timestamp: floor(ts * 1000 / rate)  (C07 fix 186fc1c; was ts // (rate // 1000))
+    return ((ms * rate // 1000) % (1 << 32)) * 1000 // rate
 
 
 def schedule_of(tok, n):
@@ -709,7 +710,7 @@ def gen_foreign(rng, nmut):
         ts = rng.randrange(1 << 32)
         arr = [(seq, ts, body)]
         line = "c12.unpack aac %d 4 %s" % (rate, ",".join("%d:%d:%s" % (s, t, hex_tok(b)) for s, t, b in arr))
-        UNPACK_EXPECT[line] = [(ts // (rate // 1000) + (i * 1024000 // rate), a) for i, a in enumerate(aus)]
+        UNPACK_EXPECT[line] = [(ts * 1000 // rate + (i * 1024000 // rate), a) for i, a in enumerate(aus)]
         base.append(("aac", rate, 4, arr))
         yield Case(line, cls="unpack-aac-multi")
         # fragmented
